@@ -8,6 +8,10 @@ import Dashu.Driver.NT
 import Dashu.Driver.Float
 import Dashu.Driver.Ratio
 import Dashu.Driver.Cross
+import Dashu.Driver.TextSci
+import Dashu.Driver.FloatX
+import Dashu.Driver.RatioPred
+import Dashu.Driver.BitsHuge
 import Dashu.Model.Serde.Num
 import Dashu.Model.Serde.NumW
 import Dashu.Model.Serde.Log2Cfg
@@ -243,15 +247,17 @@ def grouped (std : Bool) (W : Nat) (group op : String) (args : List String) : Op
   match group with
   | "int" => first [Int.dispatch, Bits.dispatch]
   | "div" => first [Div.dispatch, Int.dispatch]
-  | "bits" => first [Bits.dispatch]
-  | "text" => first [Text.dispatch]
+  -- the same chains as `Mains/<Group>.lean` (round 6: BitsHuge front end, TextSci `f.rtsci`, FloatX extreme exponents,
+  -- RatioPred `qp.*`); `c.ext` / `f.norm` of C05 are reached through `Bits.dispatch` (falls through to `CmpCtx.dispatchCtx`)
+  | "bits" => first [BitsHuge.dispatch]
+  | "text" => first [Text.dispatch, TextSci.dispatch]
   | "conv" => first [Conv.dispatch]
   | "nt" =>
     if !std && (op = "p.log2b" || op = "p.log2brange" || op = "p.flog2b" || op = "u.log2b") then
       NT.dispatch W "ns" ("_" :: op :: args)
     else first [NT.dispatch]
-  | "float" => first [Float.dispatchWith false]
-  | "ratio" => first [Ratio.dispatchAll]
+  | "float" => first [FloatX.dispatchX false]
+  | "ratio" => first [RatioPred.dispatchAll]
   | "cross" => first [Cross.dispatch]
   | _ => none
 
